@@ -245,6 +245,16 @@ class Hand:                 # hand-written __init__
         return f"Hand<{self.tag}>"
 
 
+class Brittle(Hand):        # undecorated subclass whose construction can fail (before anything is initialised)
+    def __init__(self, k, fail=False, tag=None):
+        if fail:
+            raise ValueError("construction refused")
+        super().__init__(k, tag=tag)
+
+    def __repr__(self):
+        return f"Brittle<{getattr(self, 'tag', 'never-initialised')}>"
+
+
 @dataclass(eq=False)
 class KwOnlyBase:
     world: Any = field(default=None, kw_only=True)
@@ -327,7 +337,7 @@ class Made2(View):
         return f"Made2({self.a!r},{self.b!r})"
 
 
-CLASSES = {c.__name__: c for c in (Item, Kid, Other, Base, Sub, USub, Leaf, Hand, Holder, View, Made, MadeB, Made2, Part, Rev, VItem, Dflt,
+CLASSES = {c.__name__: c for c in (Item, Kid, Other, Base, Sub, USub, Leaf, Hand, Brittle, Holder, View, Made, MadeB, Made2, Part, Rev, VItem, Dflt,
                                            Hand0)}
 
 
